@@ -27,10 +27,28 @@ OBSERVERS = ['__iter__', 'length', 'merged_track', 'play', '_save', 'save', 'pri
 CACHE_DECOS = {'cached_property', 'lru_cache', 'cache', 'functools.cached_property', 'functools.lru_cache', 'functools.cache'}
 
 
+def _users_of(ctx, fn):
+    from .c03 import _users_of as u
+    return u(ctx, fn)
+
+
 def r16_1(ctx):
     cls = ctx.p.cls(MF, 'MidiFile')
     w0 = f'{cls.module.relpath}:{cls.node.lineno} MidiFile'
     n = 0
+    # construction: __init__ and the private methods only it (or another such method) uses - they fill in the state of the
+    # object that is being made, from the file, not from contents that are edited later
+    loaders = {'__init__'}
+    changed = True
+    while changed:
+        changed = False
+        for name, fn in cls.methods.items():
+            if name in loaders or not name.startswith('_') or name.startswith('__'):
+                continue
+            users = _users_of(ctx, fn)
+            if users and all(u.cls is cls and u.name in loaders for u in users):
+                loaders.add(name)
+                changed = True
     for name, fn in cls.methods.items():
         ctx.fn(fn)
         n += 1
@@ -39,7 +57,7 @@ def r16_1(ctx):
             ctx.require(dn not in CACHE_DECOS, 'R16.1', f'{name}.decorator', ctx.where(fn),
                         f'@{dn} caches a value derived from the file contents; edits to tracks/messages cannot invalidate it',
                         construct=f'{fn.qname}::cache-decorator')
-        if name in ('__init__', '_load'):
+        if name in loaders:
             continue
         for t, st in astq.stores_in(fn.node):
             if isinstance(t, ast.Attribute) and isinstance(t.value, ast.Name) and t.value.id == 'self':
@@ -248,4 +266,57 @@ def r16_5(ctx):
     ctx.borrow(c17.r17_4, 'R16.5')
 
 
-RULES = [('R16.6', r16_6), ('R16.1', r16_1), ('R16.2', r16_2), ('R16.3', r16_3), ('R16.4', r16_4), ('R16.5', r16_5)]
+def r16_refused_edit(ctx):
+    """An edit that is refused is no edit: add_track() with a name that is not text raises and leaves the track list as it
+    was (no half-made track that save() would write); with a proper name the new track is there, named."""
+    ai = smf.make_interp(ctx)
+    cls = ctx.p.cls(MF, 'MidiFile')
+    o, at = ctx.p.lookup_method(cls, 'add_track')
+    if at is None:
+        raise AnalysisError('MidiFile.add_track not found')
+    ctx.fn(at)
+    w = ctx.where(at)
+    n = 0
+    for bad in (b'Lead', 123, 1.5, ('a',)):
+        for spec in ([], [[('n', 10, 1)]]):
+            n += 1
+            holder = {}
+
+            def thunk():
+                mf = _mk_file(ctx, ai, spec)
+                holder['mf'] = mf
+                holder['before'] = list(mf.attrs['tracks'].items)
+                return ai.call_function(at, [mf], {'name': bad})
+            outs = ai.explore(thunk)
+            after = holder['mf'].attrs['tracks'].items
+            ok = bool(outs) and all(o_.kind == 'raise' for o_ in outs) and len(after) == len(holder['before']) \
+                and all(x is y for x, y in zip(after, holder['before']))
+            ctx.require(ok, 'R16.8', f'add_track(name={bad!r}) on {len(spec)} track(s)', w,
+                        f'outcomes {outs}; the file has {len(after)} track(s) afterwards, {len(holder["before"])} before: a refused add_track must '
+                        'leave the file as it was', construct=f'{at.qname}::refused-leaves-no-track')
+    holder = {}
+
+    def thunk_ok():
+        mf = _mk_file(ctx, ai, [[('n', 10, 1)]])
+        holder['mf'] = mf
+        return ai.call_function(at, [mf], {'name': 'Lead'})
+    outs = ai.explore(thunk_ok)
+    tr = holder['mf'].attrs['tracks'].items
+    ok = len(outs) == 1 and outs[0].kind == 'return' and len(tr) == 2 and outs[0].value is tr[1] and isinstance(tr[1], AList) \
+        and len(tr[1].items) == 1 and isinstance(tr[1].items[0], AObj) and tr[1].items[0].attrs.get('type') == 'track_name' \
+        and tr[1].items[0].attrs.get('name') == 'Lead'
+    ctx.require(ok, 'R16.8', "add_track(name='Lead')", w, f'outcomes {outs}; tracks afterwards {tr!r:.300}', construct=f'{at.qname}::named-track')
+    ctx.floor('R16.8', n, 8)
+    for q in ai.inlined:
+        ctx.functions.add(q)
+
+
+def r16_merge(ctx):
+    """Iteration, length and play see the contents through merge_tracks: every message of every track at its absolute tick,
+    also the ones behind an end_of_track in the middle of an edited track - the same messages save() writes (shared with C12
+    R12.1)."""
+    from . import c12
+    ctx.borrow(c12.r12_scenarios, 'R16.7')
+
+
+RULES = [('R16.8', r16_refused_edit), ('R16.7', r16_merge), ('R16.6', r16_6), ('R16.1', r16_1), ('R16.2', r16_2), ('R16.3', r16_3), ('R16.4', r16_4), ('R16.5', r16_5)]
